@@ -9,7 +9,7 @@ import logging
 from typing import Any
 
 import numpy as np
-from scipy.linalg import eig
+from scipy.linalg import schur
 from scipy.linalg import svd
 
 from bqskit.compiler.basepass import BasePass
@@ -238,8 +238,11 @@ class BlockZXZPass(BasePass):
         # U can be decomposed into U = (I otimes V )(D otimes D†)(I otimes W )
 
         # We can find V,D^2 by performing an eigen decomposition of
-        # U_1 @ U_2†
-        d2, V = eig(U_1 @ U_2.conj().T)
+        # U_1 @ U_2†. The product is unitary, hence normal, so its complex
+        # Schur form is diagonal and, unlike the eigenvectors returned by
+        # `eig`, the Schur vectors stay orthonormal for repeated eigenvalues.
+        T, V = schur(np.asarray(U_1 @ U_2.conj().T), output='complex')
+        d2 = np.diag(T)
         d = np.sqrt(d2)
         D = np.diag(d)
 
